@@ -108,6 +108,31 @@ func c20(c *Ctx) {
 		}
 	}
 
+	c.R.Rule("R20.6", "the index key is the reference minus the identifier the parsed reference itself reports", 1,
+		"a key cut out of the string by looking for ':' or '@' takes a registry port for a tag: digest-pinned and tagged references of one repository (or different repositories of one registry) get different (or the same) keys, and a package is installed twice or overwrites another")
+	if ps := c.fn("internal/xpkg", "ParsePackageSourceFromReference"); ps != nil && len(ps.Params) == 1 {
+		structured := false
+		for _, x := range cfgx.Calls(ps, nil) {
+			if n := cfgx.CalleeName(x); (strings.HasSuffix(n, "name.Reference).Identifier") || strings.HasSuffix(n, "name.Reference).Context")) && flow.Root(underIface(cfgx.Receiver(x))) == ssa.Value(ps.Params[0]) {
+				structured = true
+			}
+		}
+		var rets []ssa.Value
+		for _, v := range cfgx.ReturnedValues(ps, 0) {
+			rets = append(rets, v)
+		}
+		fromRef := len(rets) > 0
+		for _, v := range rets {
+			if !flow.Default.Any(v, func(x ssa.Value) bool {
+				ci, ok := x.(*ssa.Call)
+				return ok && ci.Call.IsInvoke() && flow.Root(underIface(ci.Call.Value)) == ssa.Value(ps.Params[0])
+			}) {
+				fromRef = false
+			}
+		}
+		c.R.Check(structured && fromRef, load.FuncName(ps)+": structured", c.pos(ps.Pos()), "the source is the reference's own string without the identifier (or its repository context) as the parsed reference reports them", "the package source is not derived from the parsed reference's Identifier()/Context(): delimiters found in the string are not necessarily the tag or digest separator (registry ports)")
+	}
+
 	c.R.Rule("R20.2", "existing CA and certificates are kept: no Generate / write from the has-material edge; CA write acknowledged before use", 9,
 		"re-running init would rotate the CA or certificates under running components")
 	gen := "(" + xp + pkgInit + ".CertificateGenerator).Generate"
